@@ -24,3 +24,15 @@ void h_ratio(void) {
   c18_ratio(in_num, in_den);
   VERIF_REACH();
 }
+
+/* arithmetic lemma (spec/C18_arith.h): contract enforced on the empty body, for all 2^64 arguments */
+void h_lemma_nested_div(void) {
+  uint64_t in_u;
+  c18_lemma_nested_div(in_u);
+  VERIF_REACH();
+}
+void h_lemma_dhm(void) {
+  uint64_t in_u;
+  c18_lemma_dhm(in_u);
+  VERIF_REACH();
+}
